@@ -25,7 +25,7 @@ def profiles(nmax, dmax, nmin=1):
             yield ds
 
 
-def build(macro, depths, flavour=None, handler=None, lets=(), rich=False, readers=(), hpos=None, wrap=False, init_ev=False, gated=None, failop=None, hexpr_ev=False, err_after=False, capstep=False, err_defer_cap=False, init_form=None, cap0=False):
+def build(macro, depths, flavour=None, handler=None, lets=(), rich=False, readers=(), hpos=None, wrap=False, init_ev=False, gated=None, failop=None, hexpr_ev=False, err_after=False, capstep=False, err_defer_cap=False, init_form=None, cap0=False, estart=None):
     """lets: iterable of (branch, is_mut); readers: iterable of (reader_branch, step>=1) where the capture of
     that branch-step snapshots every visible name; rich: every step >= 1 carries a capture, an error-side
     callback and a non-closure operand (C06); failop (Option flavour, sync): how a step fails — None (`=>` and_then) | "filter"
@@ -111,6 +111,16 @@ def build(macro, depths, flavour=None, handler=None, lets=(), rich=False, reader
                 items.append(Op(op, [main], deferred=True))
                 if rich:
                     items.append(Op("->", [O("lgf(\"%d.%d.o\")" % (b, k))]))
+            elif flavour == "Res" and estart and not is_async:
+                # the step STARTS with a deferred error-side operator (`~!>`, `~<=`, `~<|`) with a visible callback / operand; the
+                # success-side callback follows as an instant operator
+                if estart == "!>":
+                    items.append(Op("!>", [O("|e: i32| { ev(\"%d.%d.e\", &e); e + 5000 }" % (b, k))], deferred=True))
+                elif estart == "<=":
+                    items.append(Op("<=", [O("|e: i32| { ev(\"%d.%d.e\", &e); Err::<i32, i32>(e + 5000) }" % (b, k))], deferred=True))
+                else:
+                    items.append(Op("<|", [O("lg(\"%d.%d.o\", Err::<i32, i32>(%d))" % (b, k, 7000 + 10 * b + k))], deferred=True))
+                items.append(Op("=>", [main]))
             elif flavour == "Res" and err_defer_cap:
                 # the step STARTS with a deferred error-side operator whose operand is a block capture (the reading one); the
                 # success-side callback follows as an instant operator
@@ -194,10 +204,16 @@ def build_gated(macro, depths, flavour, handler, mode):
     for b, d in enumerate(depths):
         def fut(k, val):
             site = "%d.%d.%s" % (b, k, "i" if k == 0 else "f")
-            if mode == "skip0" and b == 0:
+            if (mode == "skip0" and b == 0) or (mode == "ends" and b not in (0, n - 1)):
                 if is_try:
                     return "ready({ let x = %s; ev(\"%s\", &x); st_r(%d, %d, x) })" % (val, site, slot(b, k), payload(b, k))
                 return "ready({ let x = %s; ev(\"%s\", &x); st(%d, x) })" % (val, site, slot(b, k))
+            if mode == "ends":
+                # wide steps: only the first and the last branch wait at a gate (ids 0 and 4), every branch between them is ready
+                g = 0 if b == 0 else 4
+                if is_try:
+                    return "gated_r(%d, \"%s\", %d, %d, %s)" % (g, site, slot(b, k), payload(b, k), val)
+                return "gated(%d, \"%s\", %d, %s)" % (g, site, slot(b, k), val)
             if is_try:
                 return "gated_r(%d, \"%s\", %d, %d, %s)" % (gate_id(b, k), site, slot(b, k), payload(b, k), val)
             if mode == "two0" and b == 0:
@@ -248,6 +264,8 @@ def build_gated(macro, depths, flavour, handler, mode):
 def gates_of(depths, mode, handler=None):
     """(all gate ids, [(gate, branch, step)])"""
     gates, gate_of = [], []
+    if mode == "ends":
+        return [0, 4] + ([62] if handler in ("then", "and_then") else []), [(0, 0, 0), (4, len(depths) - 1, 0)]
     for b, d in enumerate(depths):
         if mode == "skip0" and b == 0:
             continue
